@@ -43,16 +43,20 @@ class Sandbox:
             'root/a.txt': None, 'root/sub/b.txt': None, 'root/sub/deep/c.txt': None, 'root/x.txt': None,
             'root_evil/x.txt': None, 'root_evil/a.txt': None, 'root_evil/sub/b.txt': None, 'rootx/y.txt': None, 'rootx/a.txt': None,
             'ro/z.txt': None, 'parent.txt': None, 'a.txt': None, 'x.txt': None,
+            # a folder that has the same RELATIVE name as the root when seen from another working directory
+            'elsewhere/root/a.txt': None, 'elsewhere/root/x.txt': None, 'elsewhere/root/sub/b.txt': None,
         }
         for rel in files:
             full = os.path.join(self.base, rel)
             os.makedirs(os.path.dirname(full), exist_ok=True)
-            inside = rel.startswith('root/')
+            inside = rel.startswith('root/')   # (elsewhere/root/... is OUTSIDE)
             with open(full, 'w') as f:
                 # valid KV1 so that read_kv1 works too
                 f.write(f'"{"INSIDE" if inside else "OUTSIDE"}" "{rel}"\n')
 
     def cleanup(self) -> None:
+        if getattr(self, 'cwd0', None):
+            os.chdir(self.cwd0)
         shutil.rmtree(self.base, ignore_errors=True)
 
     def contained(self, path: str, root: Optional[str] = None) -> bool:
@@ -227,6 +231,13 @@ def make_systems(sb: Sandbox):
     # chain prefixes in other spellings
     systems.append(('chain-prefix-sub-slash', FileSystemChain((RawFileSystem(sb.root), 'sub/')), sb.root, 'sub'))
     systems.append(('chain-prefix-dot-sub', FileSystemChain((RawFileSystem(sb.root), './sub')), sb.root, 'sub'))
+    # history: a root given relative to the working directory, and the working directory changes before the filesystem is
+    # used - to a place where the same relative name exists.  The root is the directory it named when it was created.
+    sb.cwd0 = os.getcwd()
+    os.chdir(sb.base)
+    systems.append(('raw-relative-root-then-chdir', RawFileSystem('root', constrain_path=True), sb.root, ''))
+    systems.append(('chain-relative-root-then-chdir', FileSystemChain((RawFileSystem('root' + os.sep), 'sub')), sb.root, 'sub'))
+    os.chdir(os.path.join(sb.base, 'elsewhere'))
     return systems
 
 
